@@ -718,7 +718,8 @@ class HTMLConverter(PDFConverter[AnyIO]):
 
 
 class XMLConverter(PDFConverter[AnyIO]):
-    CONTROL = re.compile("[\x00-\x08\x0b-\x0c\x0e-\x1f]")
+    # characters that XML 1.0 cannot represent, not even as a reference
+    CONTROL = re.compile("[\x00-\x08\x0b-\x0c\x0e-\x1f\ufffe\uffff]")
 
     def __init__(
         self,
